@@ -211,11 +211,12 @@ fn recover_and_check(kc: &KCase, r: &Recorded, img: &Image, req: usize, allow_af
         if res != "ok" {
             return v(format!("{what}: PRAGMA integrity_check says: {res}"));
         }
-        let orphans: i64 = con
-            .query_row("SELECT count(*) FROM versions v WHERE NOT EXISTS (SELECT 1 FROM clients c WHERE c.client_id = v.client_id)", [], |r| r.get(0))
-            .map_err(|e| Fail::Violation(format!("{what}: {e}")))?;
-        if orphans != 0 {
-            return v(format!("{what}: {orphans} version rows belong to no client"));
+        // version rows without a client (asked of the pinned table layout; a layout this query does
+        // not fit is not this check's business - the storage-API comparison above is the oracle)
+        match con.query_row("SELECT count(*) FROM versions v WHERE NOT EXISTS (SELECT 1 FROM clients c WHERE c.client_id = v.client_id)", [], |r| r.get::<_, i64>(0)) {
+            Ok(0) => {}
+            Ok(orphans) => return v(format!("{what}: {orphans} version rows belong to no client")),
+            Err(_) => st.label("c04:orphan-query-not-applicable"),
         }
     }
     // the database is usable: a short continuation behaves per the model
@@ -729,6 +730,7 @@ fn start_server(bin: &std::path::Path, dir: &std::path::Path) -> Result<crate::p
             args: vec!["--data-dir".into(), dir.to_string_lossy().into_owned(), "--listen".into(), format!("127.0.0.1:{port}")],
             env: vec![],
             connect: vec![format!("127.0.0.1:{port}").parse().unwrap()],
+            cwd: None,
         };
         if let Ok(p) = crate::props::binary::spawn(bin, &launch) {
             return Ok(p);
